@@ -93,6 +93,7 @@ def check(ctx):
     for i in failed[:3]:
         ctx.broken("correspondence:jachess", {"case": meta[i], "coq": cases[i][:1500]})
     oracle(ctx)
+    failed_trial_probe(ctx)
 
 
 def oracle(ctx):
@@ -118,6 +119,14 @@ def oracle(ctx):
         ops = jac(f, (x, p, q, "tag"))                # None: exactly the tensor arguments requiring grad
         if len(ops) != 2:
             ctx.fail("oracle", "jac:idxs-none", info, len(ops), 2)
+            continue
+        # ... whether they are leaves or results of earlier operations (round-3 seed C17/7: non-leaf arguments left out)
+        xnl, pnl = x * 1.0, p + 0.0
+        ops_nl = jac(f, (xnl, pnl, q, "tag"))
+        hs_nl = hess(lambda x_, p_, q_, t_: (f(x_, p_, q_, t_) ** 2).sum(), (xnl, pnl, q, "tag"))
+        ctx.count(("oracle-nonleaf", shp_x, shp_p, rep))
+        if len(ops_nl) != 2 or len(hs_nl) != 2 or list(ops_nl[0].shape) != list(ops[0].shape) or list(ops_nl[1].shape) != list(ops[1].shape):
+            ctx.fail("oracle", "jac:idxs-none:non-leaf-arguments", info, [len(ops_nl), len(hs_nl)], [2, 2])
             continue
         one = jac(f, (x, p, q, "tag"), idxs=1)
         if isinstance(one, (list, tuple)):
@@ -308,6 +317,56 @@ def oracle(ctx):
             ctx.fail("oracle", "jac:object-parameter-replaced:gradient", info, ga, 4 * newx2.detach() * u)
         if holder.a is not held:
             ctx.fail("oracle", "jac:object-parameter-not-restored", info, "different object", "same tensor object")
+
+
+def failed_trial_probe(ctx):
+    """an evaluation at a trial point (`with op.uselinopparams(...)`) in which the user's function raises, caught by the caller:
+    outside the block the operator is again the Jacobian / Hessian at the point it was built for (round-3 seed C17/9: the
+    restoration was skipped on an exception)"""
+    from xitorch.grad import jac, hess
+    g = torch.Generator().manual_seed(ctx.seed + 61)
+    fail_next = [None]
+
+    def f(x, a):
+        if fail_next[0] is not None:
+            exc, fail_next[0] = fail_next[0], None
+            raise exc
+        return torch.tanh(a @ x) + a @ x ** 2
+    x = torch.rand(3, dtype=DT, generator=g).requires_grad_()
+    a = torch.rand(4, 3, dtype=DT, generator=g).requires_grad_()
+    x2 = (torch.rand(3, dtype=DT, generator=g) + 1).requires_grad_()
+    a2 = (torch.rand(4, 3, dtype=DT, generator=g) + 1).requires_grad_()
+    w = torch.rand(3, dtype=DT, generator=g)
+    v = torch.rand(4, dtype=DT, generator=g)
+    J0 = torch.autograd.functional.jacobian(lambda xx: f(xx, a), x)
+    H0 = torch.autograd.functional.hessian(lambda xx: f(xx, a).sum(), x)
+
+    class Stop(BaseException):
+        pass
+    for name, mk, dense in (("jac", lambda: jac(f, (x, a), idxs=0), J0), ("hess", lambda: hess(lambda xx, aa: f(xx, aa).sum(), (x, a), idxs=0), H0)):
+        for exc in (ValueError("transient failure"), Stop()):
+            op = mk()
+            op.mv(w)
+            newparams = [x2 if p is x else a2 for p in op.getlinopparams()]
+            fail_next[0] = exc
+            try:
+                with op.uselinopparams(*newparams):
+                    op.mv(w)
+            except (ValueError, Stop):
+                pass
+            fail_next[0] = None
+            ctx.count(("failed-trial", name, type(exc).__name__), nontrivial=True)
+            held = all(any(p is q for q in (x, a)) for p in op.getlinopparams())
+            info = {"operator": name, "raised": type(exc).__name__, "sequence": ["mv", "with uselinopparams(trial point): mv raises", "mv"]}
+            if not held:
+                ctx.fail("oracle", "%s:failed-trial-evaluation:parameters-not-restored" % name, info, "trial tensors still installed", "the original tensors")
+                continue
+            got = {"mv": op.mv(w), "fullmatrix": op.fullmatrix(), "rmv": op.rmv(v if name == "jac" else w)}
+            want = {"mv": dense @ w, "fullmatrix": dense, "rmv": dense.T @ (v if name == "jac" else w)}
+            for k_ in got:
+                if not torch.allclose(got[k_], want[k_], rtol=1e-8, atol=1e-10):
+                    ctx.fail("oracle", "%s:failed-trial-evaluation:%s" % (name, k_), info, got[k_], want[k_])
+                    break
 
 
 def search(ctx):
